@@ -284,6 +284,7 @@ class HomeKitConnection:
         self.connected_host: str | None = None
         self.host_header: str | None = None
         self._pair_verify_failed_hosts: set[str] = set()
+        self._lost_during_setup = False
 
     @property
     def name(self) -> str:
@@ -590,6 +591,11 @@ class HomeKitConnection:
         self._drop_transport()
         if self.closing:
             self.closed = True
+        elif self._connector and not self._connector.done():
+            # The connector is still setting this connection up (for example
+            # re-subscribing): it has to try again once it gets control back,
+            # nothing else would restart it.
+            self._lost_during_setup = True
         else:
             self._start_connector()
 
@@ -682,9 +688,13 @@ class HomeKitConnection:
             while not self.closing:
                 self._last_connector_error = None
                 failed_host_count = len(self._pair_verify_failed_hosts)
+                self._lost_during_setup = False
                 try:
                     try:
-                        return await self._connect_once()
+                        await self._connect_once()
+                        if not self._lost_during_setup:
+                            return
+                        raise AccessoryDisconnectedError("Connection lost while it was being set up")
                     except BaseException:
                         # A failed attempt must not leave its connection open:
                         # the next attempt would overwrite the reference and leak it.
